@@ -11,6 +11,9 @@ Decided (structural may-panic analysis, every input text / every parsed policy):
         `unreachable!()` arms in lower_expression sit in inner re-matches on already selected
         comparison kinds.
 Trusted: the pest-generated parser, PrattParser, markdown (mdast) and serde_yaml.
+ R3 K2  compile_command's `assume("duplicates are prevented by compile_struct")` is backed: define_struct
+        returns an error whenever an item repeats a field name already collected, and pushes no field
+        without that lookup.
 Not decided: stack exhaustion on deeply nested input (recursion depth is a runtime quantity)."""
 from rules.core import k4, pat
 
@@ -72,11 +75,11 @@ AUDIT = {
 }
 BUG_AUDIT = {
     "aranya_policy_ast::span::Span::new": "debug_assert!(start <= end) on spans built from pest positions",
-    C + "compile_command": "label/address arithmetic", C + "compile_counting_function": "constant arithmetic on limits",
+    C + "compile_command": "field-name duplicates were rejected by define_struct for the same field list (R3 checks that define_struct still rejects every duplicate)",
     C + "compile_enum_definition": "enum value counter (i64) cannot overflow for parsed enums",
     C + "compile_match_statement_or_expression": "internal consistency of lowered match arms",
     C + "compile_typed_expression": "internal consistency of typed IR", C + "define_builtin": "builtin table is static",
-    C + "define_interfaces": "debug_assert on topological order", C + "evaluate_sources": "internal",
+    C + "define_interfaces": "debug_assert on topological order",
     C + "get_statement_context::{closure#0}": "statement context stack non-empty (compiler pairing)",
     C + "resolve_target::{closure#0}": "unresolved label = compiler bug, reported as an error value",
     L + "lower_expression": "typed-IR invariants", L + "lower_match_statement_or_expression": "pattern bookkeeping",
@@ -132,3 +135,28 @@ def run(F, rep, tier):
     rep.check(ok, "belief|lower_expression-inner-rematch", "K7 exhaustiveness",
               "each unreachable!() in lower_expression is the default arm of a re-match listing every kind its enclosing arm admits",
               "an inner re-match in lower_expression no longer lists every expression kind admitted by its enclosing arm", le.site())
+    # R3: the belief behind compile_command's `assume("duplicates are prevented by compile_struct")`
+    cc = F.fn(C + "compile_command")
+    believes = [c for c in cc.calls if k4.callee_kind(c) and k4.callee_kind(c)[0] == "bug" and any("insert" == x.name for x in cc.calls if x.bb in cc.pred(c.bb) or True)]
+    ds = F.fn(C + "define_struct")
+    finds = [c for c in ds.calls if c.is_("Iterator::find")]
+    pushes = [c for c in ds.calls if c.name == "push"]
+    if believes:
+        rep.floor("define_struct duplicate lookups", len(finds), 2)
+        from rules.core import emit
+        cut = emit.err_edges(ds)
+        for i, c in enumerate(finds):
+            oe = ds.outcome_edges(c)
+            ok = "Some" in oe
+            if ok:
+                r = ds.reachable(oe["Some"][1], cut_edges=cut)
+                oks = {s.bb for s in pat.ok_returns(ds)}
+                ok = c.bb not in r and not (r & oks) and not any(p.bb in r for p in pushes)
+            rep.check(ok, "belief|define_struct-rejects-duplicate#%d" % i, "K2 guarded-by",
+                      "a field whose name is already present makes define_struct return an error (no path from the `found` edge back into the loop, to a push, or to Ok)",
+                      "define_struct can accept a struct whose items repeat a field name, but compile_command inserts the same items into a NamedMap under "
+                      "`assume(\"duplicates are prevented by compile_struct\")`: the compiler panics (debug) on such a command", c.site())
+        # every push of a field is preceded by such a lookup
+        for i, p in enumerate(pushes):
+            rep.check(any(ds.dominates(c.bb, p.bb) for c in finds), "belief|define_struct-push-checked#%d" % i, "K1 must-pass-through",
+                      "each field pushed into the definition was looked up among the fields collected so far", site=p.site())
